@@ -2,7 +2,9 @@ package bits
 
 import (
 	"encoding/binary"
+	"errors"
 	"fmt"
+	"math"
 	"regexp"
 	"strings"
 	"sync"
@@ -430,15 +432,29 @@ func (bA *BitArray) ToProto() *tmprotobits.BitArray {
 	}
 }
 
-// FromProto sets a protobuf BitArray to the given pointer.
-func (bA *BitArray) FromProto(protoBitArray *tmprotobits.BitArray) {
+// FromProto sets the BitArray to the given protobuf BitArray. It returns an
+// error, and leaves the BitArray untouched, if the number of elements does not
+// match the number of bits: such an array cannot have been produced by
+// ToProto and would make the index arithmetic of the other methods go out of
+// range.
+func (bA *BitArray) FromProto(protoBitArray *tmprotobits.BitArray) error {
 	if protoBitArray == nil {
-		bA = nil
-		return
+		return nil
+	}
+
+	if protoBitArray.Bits < 0 {
+		return errors.New("negative Bits")
+	}
+	if protoBitArray.Bits > math.MaxInt32 { // also keeps int(Bits) exact on 32-bit platforms
+		return errors.New("too many Bits")
+	}
+	if got, exp := len(protoBitArray.Elems), (int(protoBitArray.Bits)+63)/64; got != exp {
+		return fmt.Errorf("invalid number of Elems: got %d, but exp %d", got, exp)
 	}
 
 	bA.Bits = int(protoBitArray.Bits)
 	if len(protoBitArray.Elems) > 0 {
 		bA.Elems = protoBitArray.Elems
 	}
+	return nil
 }
